@@ -12,6 +12,7 @@ package scan
 import (
 	"fmt"
 	"math/big"
+	"math/bits"
 	"math/rand"
 	"sort"
 	"testing"
@@ -128,6 +129,73 @@ func c04iterate(run *vlab.Run, c c04case) {
 	}
 }
 
+// c04prefix watches the first `steps` values of an iteration that is too long to run completely in
+// this tier: every value must lie in 1..n, no value may repeat, and the walk must be the one the
+// documented recurrence x -> x*G mod P (values above n skipped) produces from the first value,
+// recomputed here in 128-bit arithmetic (math/bits) from the group the iterator reports.
+func c04prefix(run *vlab.Run, c c04case, steps int) {
+	id := fmt.Sprintf("prefix n=%d/s=%d", c.N, c.Seed)
+	run.Case(id, c)
+	rand.Seed(c.Seed)
+	it, err := newRangeIterator(c.N)
+	run.Eval(1)
+	if err != nil {
+		run.Violation("valid-size-rejected", fmt.Sprintf("newRangeIterator(%d) (rand seed %d) returned error %v", c.N, c.Seed, err), c)
+		return
+	}
+	if !it.P.IsUint64() || !it.G.IsUint64() {
+		run.Violation("out-of-range", fmt.Sprintf("n=%d seed=%d: group parameters P=%s G=%s", c.N, c.Seed, it.P, it.G), c)
+		return
+	}
+	P, G := it.P.Uint64(), it.G.Uint64()
+	n := uint64(c.N)
+	seen := make(map[uint64]struct{}, steps)
+	var ref uint64
+	var count int64
+	for k := 0; k < steps; k++ {
+		v := it.Int()
+		if !v.IsUint64() || v.Uint64() < 1 || v.Uint64() > n {
+			run.Violation("out-of-range", fmt.Sprintf("n=%d seed=%d: step %d yielded %s, outside 1..n (P=%d G=%d)", c.N, c.Seed, k+1, v.String(), P, G), c)
+			return
+		}
+		x := v.Uint64()
+		if _, dup := seen[x]; dup {
+			run.Violation("repeated", fmt.Sprintf("n=%d seed=%d: value %d yielded twice within the first %d steps (P=%d G=%d)", c.N, c.Seed, x, k+1, P, G), c)
+			return
+		}
+		seen[x] = struct{}{}
+		if k > 0 {
+			// reference walk from the previous value
+			for {
+				hi, lo := bits.Mul64(ref, G)
+				_, ref = bits.Div64(hi, lo, P)
+				if ref <= n {
+					break
+				}
+			}
+			if ref != x {
+				run.Violation("walk-differs", fmt.Sprintf("n=%d seed=%d: step %d yielded %d; x*G mod P from the previous value gives %d (P=%d G=%d): the iteration no longer walks the cyclic group", c.N, c.Seed, k+1, x, ref, P, G), c)
+				return
+			}
+		}
+		ref = x
+		count++
+		if !it.Next() {
+			if uint64(count) != n {
+				run.Violation("omitted", fmt.Sprintf("n=%d seed=%d: iteration stopped after %d of %d values", c.N, c.Seed, count, c.N), c)
+			}
+			break
+		}
+	}
+	run.Count("prefix_iterations_checked", 1)
+	run.Count("prefix_values_seen", count)
+	if G >= 1<<31 {
+		run.Count("prefix_generators_above_2^31", 1)
+	}
+	run.Max("max_n", c.N)
+	run.Distinct(id)
+}
+
 func TestVerifC04(t *testing.T) {
 	run := vlab.Begin(t, "C04", "iter")
 	defer run.End()
@@ -209,7 +277,8 @@ func TestVerifC04(t *testing.T) {
 			cases = append(cases, c04case{N: n, Seed: rng.Int63(), Why: "small-exhaustive"})
 		}
 	}
-	maxRowQuick := 24 // P ~ 2^24
+	maxRowQuick := 26 // P ~ 2^26
+	var prefixes []c04case
 	for k, row := range cyclicGroups {
 		bits := k + 1 // row k serves 2^bits-ish
 		var prev int64 = 1
@@ -226,6 +295,15 @@ func TestVerifC04(t *testing.T) {
 			seeds = run.Pick(1, 2)
 		}
 		if bits > maxRowQuick {
+			// rows too long to iterate completely in the quick tier: watch a prefix for many draws
+			for _, c := range cand {
+				if c.n < 1 || c.n >= row.P || c.n < prev {
+					continue
+				}
+				for s := 0; s < run.Pick(6, 24); s++ {
+					prefixes = append(prefixes, c04case{N: c.n, Seed: rng.Int63(), Why: fmt.Sprintf("row%d:%s:prefix", k, c.why)})
+				}
+			}
 			if !run.Thorough() {
 				continue
 			}
@@ -265,6 +343,12 @@ func TestVerifC04(t *testing.T) {
 		}
 		c04iterate(run, c)
 		rows[sort.Search(len(cyclicGroups), func(j int) bool { return cyclicGroups[j].P > c.N })] = true
+	}
+	for i, c := range prefixes {
+		if !run.Mine(i) {
+			continue
+		}
+		c04prefix(run, c, run.Pick(200000, 2000000))
 	}
 	run.Count("max_rows_exercised_in_a_batch", int64(len(rows)))
 }
